@@ -123,12 +123,12 @@ class Program(object):
         text, self.closure_spans = disambiguate_closures(text, vtext)
         synth = open(os.path.join(os.path.dirname(os.path.abspath(__file__)), 'synth.mir')).read()
         self.bodies, self.stats = parse_mir(text + '\n' + synth)
-        nerr = sum(len(b.errors) for b in self.bodies)
-        if nerr:
-            for b in self.bodies:
-                for e in b.errors[:3]:
-                    sys.stderr.write('MIR parse error in %s: %s\n' % (b.name[:80], e[:300]))
-            raise SystemExit(2)
+        # a body the front end cannot parse completely (e.g. references to thread-local statics) is kept, marked, and makes a run inconclusive
+        # only if execution actually enters it
+        self.unparsed = [b.name for b in self.bodies if b.errors]
+        for b in self.bodies:
+            for e in b.errors[:1]:
+                sys.stderr.write('MIR construct not understood in %s: %s\n' % (b.name[:80], e[:200]))
         self.meta = Meta(fe['doc'])
         # one-line constant items:  const NAME: T = const <literal>;
         self.simple_consts = {}
